@@ -205,3 +205,38 @@ def fit_model_retry(kind):
         QuantileRegressionSolver.fit = real_fit
     out["n_calls"] = calls["n"]
     return out
+
+
+def nonreporting_bounds(estimand, pev, value, lo_b, hi_b, err=0.5):
+    from elexmodel.models.BootstrapElectionModel import BootstrapElectionModel
+
+    m = BootstrapElectionModel({"features": ["baseline_normalized_margin"], "y_unobserved_lower_bound": lo_b, "y_unobserved_upper_bound": hi_b, "z_unobserved_lower_bound": lo_b, "z_unobserved_upper_bound": hi_b, "percent_expected_vote_error_bound": err})
+    df = pd.DataFrame({"percent_expected_vote": [pev], estimand: [value]})
+    out = {"exc": None}
+    try:
+        lo, hi = m._generate_nonreporting_bounds(df, estimand)
+        out["lo"], out["hi"] = float(lo[0, 0]), float(hi[0, 0])
+    except Exception as e:  # noqa
+        out["exc"] = f"{type(e).__name__}: {e}"
+    return out
+
+
+def bootstrap_classification_unexpected():
+    """bootstrap estimator, county_classification aggregate, one unexpected and one blocklisted unit"""
+    base = synthetic(40, seed=1)
+    cur = feed(base, [100] * 25 + [40] * 15)
+    extra = cur.iloc[[0]].copy()
+    extra["geographic_unit_fips"] = "AA00_9999"
+    cur2 = pd.concat([cur, extra], ignore_index=True)
+    blk = [base.geographic_unit_fips[3]]
+    out = {"exc": None}
+    try:
+        c, res = run_client(cur2, base, estimands=("margin",), pi_method="bootstrap", prediction_intervals=(0.9,), aggregates=("postal_code", "county_classification", "unit"), features=("baseline_normalized_margin",), model_parameters={"B": 20, "unit_blocklist": blk})
+        cd = res["classification_data"]
+        u = res["unit_data"].merge(base[["geographic_unit_fips", "county_classification"]], on="geographic_unit_fips")
+        g = u[u.unit_category == "expected"].groupby(["postal_code", "county_classification"])[["pred_margin", "pred_turnout"]].sum().reset_index()
+        m = cd.merge(g, on=["postal_code", "county_classification"], suffixes=("", "_units"))
+        out["max_ratio_gap"] = float(np.abs(m.pred_margin - m.pred_margin_units / m.pred_turnout_units).max())
+    except Exception as e:  # noqa
+        out["exc"] = f"{type(e).__name__}: {e}"
+    return out
